@@ -60,6 +60,43 @@ struct Layer {
     #[serde(default)]
     misfit: Option<u8>,
 }
+/// `rip run --provider P [--model M] [--stateless-history] [--parallel-tool-calls] [--followup-user-message F]`
+#[derive(Clone, Serialize, Deserialize, Debug, Default)]
+struct CliFlags {
+    provider: String,
+    model: Option<String>,
+    stateless: bool,
+    parallel: bool,
+    followup: Option<String>,
+}
+impl CliFlags {
+    fn args(&self) -> Vec<String> {
+        let mut a = vec!["--provider".to_string(), self.provider.clone()];
+        if let Some(m) = &self.model {
+            a.extend(["--model".to_string(), m.clone()]);
+        }
+        if self.stateless {
+            a.push("--stateless-history".into());
+        }
+        if self.parallel {
+            a.push("--parallel-tool-calls".into());
+        }
+        if let Some(m) = &self.followup {
+            a.extend(["--followup-user-message".to_string(), m.clone()]);
+        }
+        a
+    }
+    fn coq(&self) -> String {
+        format!(
+            "(Some (mkFlags {} {} {} {} {}))",
+            if self.provider == "openai" { "POpenai" } else { "POpenrouter" },
+            coq_ostr(&self.model),
+            coq_bool(self.stateless),
+            coq_bool(self.parallel),
+            coq_ostr(&self.followup)
+        )
+    }
+}
 #[derive(Clone, Serialize, Deserialize, Debug, Default)]
 struct Ovr {
     endpoint: Option<String>,
@@ -112,6 +149,9 @@ struct Scenario {
     /// overrides the CLI derives from its environment / flags), then `rip config doctor`
     #[serde(default)]
     cli_run: Option<Vec<String>>,
+    /// the provider flags of that `rip run` (the model derives the authority's environment and the overrides from them)
+    #[serde(default)]
+    cli_flags: Option<CliFlags>,
 }
 
 #[allow(dead_code)]
@@ -935,11 +975,38 @@ fn rip_bin() -> Option<PathBuf> {
     p.exists().then_some(p)
 }
 
-fn dead_addr() -> String {
-    let l = std::net::TcpListener::bind("127.0.0.1:0").unwrap();
-    let a = l.local_addr().unwrap();
-    drop(l);
-    format!("http://{a}")
+/// An address that refuses connections for as long as the value lives: a socket that is BOUND (so nobody else on this
+/// shared box can get the port - picking a free port and releasing it raced with other builders' servers and with this
+/// harness's own scripted providers: a "dead" endpoint that answered) but never listens, so connect() gets ECONNREFUSED.
+struct DeadAddr {
+    fd: i32,
+    url: String,
+}
+impl DeadAddr {
+    fn new() -> DeadAddr {
+        unsafe {
+            let fd = libc::socket(libc::AF_INET, libc::SOCK_STREAM | libc::SOCK_CLOEXEC, 0);
+            assert!(fd >= 0, "socket");
+            let mut sa: libc::sockaddr_in = std::mem::zeroed();
+            sa.sin_family = libc::AF_INET as libc::sa_family_t;
+            sa.sin_port = 0;
+            sa.sin_addr = libc::in_addr { s_addr: u32::from_ne_bytes([127, 0, 0, 1]) };
+            let rc = libc::bind(fd, &sa as *const libc::sockaddr_in as *const libc::sockaddr, std::mem::size_of::<libc::sockaddr_in>() as libc::socklen_t);
+            assert!(rc == 0, "bind");
+            let mut out: libc::sockaddr_in = std::mem::zeroed();
+            let mut len = std::mem::size_of::<libc::sockaddr_in>() as libc::socklen_t;
+            let rc = libc::getsockname(fd, &mut out as *mut libc::sockaddr_in as *mut libc::sockaddr, &mut len);
+            assert!(rc == 0, "getsockname");
+            DeadAddr { fd, url: format!("http://127.0.0.1:{}", u16::from_be(out.sin_port)) }
+        }
+    }
+}
+impl Drop for DeadAddr {
+    fn drop(&mut self) {
+        unsafe {
+            libc::close(self.fd);
+        }
+    }
 }
 
 fn run_once(sc: &Scenario, key: &str, hdr: &str, num: &str) -> RunOut {
@@ -947,7 +1014,8 @@ fn run_once(sc: &Scenario, key: &str, hdr: &str, num: &str) -> RunOut {
     let root = scratch.path().to_path_buf();
     let provider = ScriptedProvider::start(script_for(sc.outcome));
     let prov = provider.url.trim_end_matches("/v1/responses").to_string();
-    let dead = dead_addr();
+    let dead_guard = DeadAddr::new();
+    let dead = dead_guard.url.clone();
     let target = if sc.outcome == 2 { dead.clone() } else { prov.clone() };
     let rkey: String = key.chars().rev().collect();
     let schemeless = target.trim_start_matches("http://").to_string();
@@ -1012,6 +1080,7 @@ fn run_once(sc: &Scenario, key: &str, hdr: &str, num: &str) -> RunOut {
     }
     cmd.current_dir(root.join("outer/ws"));
     let out = cmd.output().expect("spawn child");
+    drop(dead_guard);
     let obs: ChildObs = std::fs::read(root.join("out/obs.json")).ok().and_then(|b| serde_json::from_slice(&b).ok()).unwrap_or_default();
     let mut files = vec![];
     walk(&root.join("data"), &root, &mut files);
@@ -1389,7 +1458,8 @@ fn coq_case(c: &Scenario, obs: &[u64]) -> String {
         Some(o) => format!("mkOvr {} {} {} {} {}", coq_ostr(&o.endpoint), coq_ostr(&o.model), coq_obool(&o.stateless), coq_obool(&o.parallel), coq_ostr(&o.followup)),
     };
     let outcome = if c.doctor_only { 99 } else { c.outcome as u64 };
-    format!("mkCase (mkWorld {} {} ({}) {}) {} {} {}", ls, env, ovr, coq_ostr(&c.misfit), coq_bool(c.thread), outcome, coq_list_n(obs))
+    let cli = c.cli_flags.as_ref().map(|f| f.coq()).unwrap_or_else(|| "None".into());
+    format!("mkCase (mkWorld {} {} ({}) {}) {} {} {} {}", ls, env, ovr, coq_ostr(&c.misfit), cli, coq_bool(c.thread), outcome, coq_list_n(obs))
 }
 
 // ------------------------------------------------------------------ independent doctor oracle
@@ -1843,23 +1913,26 @@ fn gen_clirun(rng: &mut Rng, j: u64) -> Scenario {
             // authority it spawns (apply_openresponses_env); the endpoint is the real one, unreachable here
             sc.channel = "cli-run:--provider openai".into();
             sc.outcome = 2;
-            sc.oracle_only = true;
             sc.secret_unsendable = true;
             sc.env.push(("OPENAI_API_KEY".into(), key));
-            args.extend(["--provider".to_string(), "openai".to_string()]);
+            let f = CliFlags { provider: "openai".into(), parallel: rng.chance(1, 2), ..Default::default() };
+            args.extend(f.args());
+            sc.cli_flags = Some(f);
         }
         _ => {
-            // the same with the derived variables spelled out, so that the model sees the authority's environment
+            // the generic variable as the fallback, and every flag
             sc.channel = "cli-run:--provider openrouter".into();
             sc.outcome = 2;
             sc.secret_unsendable = true;
-            sc.env.push(("OPENROUTER_API_KEY".into(), key.clone()));
-            sc.env.push(("RIP_OPENRESPONSES_API_KEY".into(), key));
-            sc.env.push(("RIP_OPENRESPONSES_ENDPOINT".into(), "https://openrouter.ai/api/v1/responses".into()));
-            sc.env.push(("RIP_OPENRESPONSES_MODEL".into(), "some/model".into()));
-            sc.env.push(("RIP_OPENRESPONSES_STATELESS_HISTORY".into(), "1".into()));
-            sc.ovr = Some(Ovr { endpoint: Some("https://openrouter.ai/api/v1/responses".into()), model: Some("some/model".into()), stateless: Some(true), parallel: None, followup: None });
-            args.extend(["--provider".to_string(), "openrouter".to_string(), "--model".to_string(), "some/model".to_string(), "--stateless-history".to_string()]);
+            if rng.chance(1, 2) {
+                sc.env.push(("OPENROUTER_API_KEY".into(), key));
+            } else {
+                sc.env.push(("RIP_OPENRESPONSES_API_KEY".into(), key));
+            }
+            sc.env.push(("RIP_OPENRESPONSES_MODEL".into(), "shadowed-by-the-flag".into()));
+            let f = CliFlags { provider: "openrouter".into(), model: Some("some/model".into()), stateless: true, parallel: false, followup: Some("go on".into()) };
+            args.extend(f.args());
+            sc.cli_flags = Some(f);
         }
     }
     if rng.chance(1, 2) {
